@@ -1,3 +1,85 @@
+import QmiModel.Model.Lock
 import Drv.Common
-/-! stub driver for C04: replaced when the model is built -/
-def main : IO Unit := Drv.main' (fun (s : Unit) _ => (s, "bad-op")) ()
+/-!
+Line protocol of the C04 model driver (one output line per input line):
+
+  init <srvname>            -> ok                (fresh system; instance 0 = owning context)
+  ctx <name>                -> <idx>             (new context instance)
+  proxy <ctxidx>            -> <idx> | bad-op    (new proxy in that context)
+  lock <p> -|=<custom>      -> true|false|hang
+  unlock <p> -|=<custom>    -> true|false|hang
+  force <p>                 -> ok|hang
+  islocked <p>              -> true|false|hang
+  call <p> b|n              -> ran <count>|locked|hang     (b = blocking proxy, n = rpc_nonblocking + wait)
+  burn <ctxidx>             -> ok                (make_unique_token() used up for another object)
+  tok <p>                   -> <tok> <nbtok>     (the proxy's two remembered tokens, `-` or ctx/token)
+  owner                     -> - | ctx/token     (`_locking_token`)
+  counter <ctxidx>          -> <n>
+  probe                     -> alive <count> | dead:<PyExc>
+-/
+open QmiModel.Lock
+
+def showTok : Option Token → String
+  | none => "-"
+  | some t => t.ctx ++ "/" ++ t.tok
+
+def parseCustom (s : String) : Option (Option String) :=
+  if s == "-" then some none
+  else match s.toList with
+    | '=' :: rest => some (some (String.ofList rest))
+    | _ => none
+
+def showOut : Out → String
+  | .idx n => toString n
+  | .unit => "ok"
+  | .bool b => toString b
+  | .ran n => s!"ran {n}"
+  | .locked => "locked"
+  | .hang => "hang"
+  | .bad => "bad-op"
+
+def doOp (s : Sys) (o : Op) : Sys × String :=
+  let (s', out) := step s o
+  (s', showOut out)
+
+def stepLine (s : Sys) (line : String) : Sys × String :=
+  match line.splitOn " " with
+  | ["init", srv] => (init srv, "ok")
+  | ["ctx", name] => doOp s (.newCtx name)
+  | ["proxy", c] => match c.toNat? with | some c => doOp s (.newProxy c) | none => (s, "bad-op")
+  | ["lock", p, t] =>
+    match p.toNat?, parseCustom t with
+    | some p, some c => doOp s (.lock p c)
+    | _, _ => (s, "bad-op")
+  | ["unlock", p, t] =>
+    match p.toNat?, parseCustom t with
+    | some p, some c => doOp s (.unlock p c)
+    | _, _ => (s, "bad-op")
+  | ["force", p] => match p.toNat? with | some p => doOp s (.forceUnlock p) | none => (s, "bad-op")
+  | ["islocked", p] => match p.toNat? with | some p => doOp s (.isLocked p) | none => (s, "bad-op")
+  | ["call", p, k] =>
+    match p.toNat?, k with
+    | some p, "b" => doOp s (.call p false)
+    | some p, "n" => doOp s (.call p true)
+    | _, _ => (s, "bad-op")
+  | ["burn", c] => match c.toNat? with | some c => doOp s (.burn c) | none => (s, "bad-op")
+  | ["tok", p] =>
+    match p.toNat? with
+    | some p => match s.proxies[p]? with
+      | some px => (s, showTok px.tok ++ " " ++ showTok px.nbTok)
+      | none => (s, "bad-op")
+    | none => (s, "bad-op")
+  | ["owner"] => (s, showTok s.owner)
+  | ["counter", c] =>
+    match c.toNat? with
+    | some c => match s.ctxs[c]? with
+      | some cx => (s, toString cx.counter)
+      | none => (s, "bad-op")
+    | none => (s, "bad-op")
+  | ["probe"] =>
+    match s.dead with
+    | none => (s, s!"alive {s.count}")
+    | some e => (s, "dead:" ++ e.name)
+  | _ => (s, "bad-op")
+
+def main : IO Unit := Drv.main' stepLine (init "srv")
